@@ -86,51 +86,56 @@ def convSteps (stride : PArg) (nPlanes : Nat) : List Nat :=
   | .int s => List.replicate nPlanes s
   | .arr ss => (List.range nPlanes).map fun i => ss.getD i 0
 
-/-! ### the pipeline -/
+/-! ### the pipeline, stage by stage -/
+
+/-- `a_weight`: reshape by groups, then (unless `dilation` is None) expand on the window axes.
+    `none` = the reshape is Nothing, which the code unwraps unchecked. -/
+def convWeight (nPlanes : Nat) (w : Arr Int) (dilation : PArg) (groups : Nat) : Option (Arr Int) :=
+  (reshapeV w (convReshapeWeight w.shape groups nPlanes)).map fun rw =>
+    match dilation with
+    | .none => rw
+    | _ => expandV rw (convWindowAxis nPlanes) (convExpandSpacing dilation nPlanes)
+
+/-- `a_input`: reshape by groups, then (unless `padding` is None) zero-pad the plane axes -/
+def convInput (nPlanes : Nat) (x : Arr Int) (padding : PArg) (groups : Nat) : Res (Arr Int) :=
+  let rin := reshapeV x (convReshapeInput x.shape groups nPlanes)
+  match padding with
+  | .none => (match rin with | some r => .ok r | none => .nothing)
+  | _ => (match rin with
+          | none => .ub "unwrap(reshape(input))"
+          | some r => (match padV r (convPad r.shape.length padding nPlanes) with
+                       | some p => .ok p
+                       | none => .nothing))
+
+/-- sliding windows of input and weight, multiply, sum over window and channel axes, merge `(O/g, g)` -/
+def convCore (nPlanes : Nat) (ain aw : Arr Int) : Option (Arr Int) :=
+  let ks := convKernelSize aw.shape nPlanes
+  let ax := convWindowAxis nPlanes
+  (binop (· * ·) (slidingWindowV ain ks ax) (slidingWindowV aw ks ax)).bind fun m =>
+    let sm := sumAxes m (convSumAxes nPlanes)
+    reshapeV sm (convReshapeReduce sm.shape nPlanes)
+
+def convBias (nPlanes : Nat) (rs : Arr Int) (bias : Option (Arr Int)) : Option (Arr Int) :=
+  match bias with
+  | none => some rs
+  | some b => (reshapeV b (convReshapeBias b.shape nPlanes)).bind fun rb => binop (· + ·) rs rb
+
+def convStride (nPlanes : Nat) (a : Arr Int) (stride : PArg) : Arr Int :=
+  match stride with
+  | .none => a
+  | _ => sliceStepV a (convSteps stride nPlanes)
 
 def convnd (nPlanes : Nat) (x w : Arr Int) (bias : Option (Arr Int)) (stride padding dilation : PArg) (groups : Nat) :
     Res (Arr Int) :=
-  -- weight
-  match reshapeV w (convReshapeWeight w.shape groups nPlanes) with
+  match convWeight nPlanes w dilation groups with
   | none => .ub "unwrap(reshape(weight))"
-  | some rw =>
-    let aWeight := match dilation with
-      | .none => rw
-      | _ => expandV rw (convWindowAxis nPlanes) (convExpandSpacing dilation nPlanes)
-    let windowAxis := convWindowAxis nPlanes
-    let kernelSize := convKernelSize aWeight.shape nPlanes
-    -- input
-    let rin := reshapeV x (convReshapeInput x.shape groups nPlanes)
-    let aInput : Res (Arr Int) := match padding with
-      | .none => (match rin with | some r => .ok r | none => .nothing)
-      | _ => (match rin with
-              | none => .ub "unwrap(reshape(input))"
-              | some r => (match padV r (convPad r.shape.length padding nPlanes) with
-                           | some p => .ok p
-                           | none => .nothing))
-    match aInput with
+  | some aw =>
+    match convInput nPlanes x padding groups with
     | .ub s => .ub s
     | .nothing => .nothing
     | .ok ain =>
-      let ww := slidingWindowV aWeight kernelSize windowAxis
-      let iw := slidingWindowV ain kernelSize windowAxis
-      match binop (· * ·) iw ww with
+      match (convCore nPlanes ain aw).bind (fun rs => convBias nPlanes rs bias) with
       | none => .nothing
-      | some m =>
-        let sm := sumAxes m (convSumAxes nPlanes)
-        match reshapeV sm (convReshapeReduce sm.shape nPlanes) with
-        | none => .nothing
-        | some rs =>
-          let added : Option (Arr Int) := match bias with
-            | none => some rs
-            | some b => (match reshapeV b (convReshapeBias b.shape nPlanes) with
-                         | none => none
-                         | some rb => binop (· + ·) rs rb)
-          match added with
-          | none => .nothing
-          | some ad =>
-            match stride with
-            | .none => .ok ad
-            | _ => .ok (sliceStepV ad (convSteps stride nPlanes))
+      | some ad => .ok (convStride nPlanes ad stride)
 
 end NmVerif.NN
